@@ -377,8 +377,10 @@ def check_ranges(ctx, rep):
                 and len(pushes) == 1
             rep.ob(ok, 'R02.6', fn.path, 'new constant', 'returns constants.len() read before the single push: %s' % show(v), fn.loc())
         else:
-            ok = v[0] in ('field', 'downcast') and 'position' in show(v)
-            rep.ob(ok, 'R02.6', fn.path, 'existing constant', 'returns the position found by Iterator::position: %s' % show(v), fn.loc())
+            from rules import c05 as _c05
+            yielded = _c05._yielded_index(v, p.env)
+            ok = (v[0] in ('field', 'downcast') and 'position' in show(v)) or (yielded is not None and 'f%d' % next((i for i, f_ in enumerate(F.adt('compiler::Compiler')['variants'][0]['fields']) if f_['name'] == 'constants'), -1) in str(yielded))
+            rep.ob(ok, 'R02.6', fn.path, 'existing constant', 'returns an index the standard library yielded for the constant pool (position / enumerate): %s' % show(v), fn.loc())
     rep.count('add_constant_paths', n)
     # Context::define: push + max_size increment on the same path; nothing decrements max_size
     S = 'symbols::'
